@@ -267,7 +267,25 @@ def run_state(s):
             p.run_model()
             Tm[mode] = totals(p, of, wrt)
         except om.AnalysisError as e:
-            return dict(viol=[], nontrivial=False, digest="nonconv:" + str(e)[:80], transitions=evals + 1, validated=0, inadmissible=True, counters=dict(nonconvergent=1), note=str(e)[:200])
+            msg = str(e)
+            if "'LN:" in msg and s["topo"] == "as":
+                # the iterative LINEAR solver did not converge.  The block Gauss-Seidel iteration matrix of the linearised
+                # coupled system (and of its transpose) has the spectrum of the Jacobian of the nonlinear block Gauss-Seidel
+                # map at the solution; restarted GMRES converges for any non-singular system of this size.  So if plain
+                # nonlinear block Gauss-Seidel (no Aitken) converges for this configuration, linear non-convergence means the
+                # component-level linear operators are inconsistent with the model: a violation, not an inadmissible cell.
+                try:
+                    q, _, _, _ = build(dict(s, lin="direct"), "rev")
+                    builders.tighten(q, npoints=s.get("npoints", 1), nl="nlbgs", lin="direct")
+                    q.run_model()
+                    nl_ok = True
+                except om.AnalysisError:
+                    nl_ok = False
+                if nl_ok:
+                    tags = {k: s[k] for k in ("model", "sym", "comp", "two", "ground", "npoints") if k in s}
+                    v = dict(sig=dict(oracle="linear_solver_converges", lin=lin, mode=mode, topo=s["topo"], **tags), msg="%s linear solve with %s does not converge although plain nonlinear block Gauss-Seidel converges for this model: %s" % (mode, lin, msg[:120]), measure=1.0)
+                    return dict(viol=[v], nontrivial=True, digest="lin-nonconv", transitions=evals + 2, validated=1)
+            return dict(viol=[], nontrivial=False, digest="nonconv:" + msg[:80], transitions=evals + 1, validated=0, inadmissible=True, counters=dict(nonconvergent=1), note=msg[:200])
         P[mode] = p
         evals += 2
     viol, entries, unrel, nz = [], 0, 0, 0
